@@ -71,6 +71,8 @@ def read_params(r, kind, reread=True):
              "listresp": r.get_dir_listing_response_params, "listopts": r.get_dir_listing_options}[kind]
         first = g()
         if first is not None:
+            from .probe import trash
+            trash(first)                 # in place, through the objects themselves (byte fields, LVs, lists)
             _scramble(first)
     if kind == "put_request":
         x = r.get_proxy_put_request_params()
